@@ -18,10 +18,12 @@ EXPLANATION = (
     "(R07.7) the state -> box conversion reads mean[0,1,3,4] in place and drops the angle exactly when mean[2] == 0. "
     "Equality with the textbook recurrence, SPD-ness and stationarity are numeric and NOT decided. "
     "(R07.9) initiate / predict / update / distance have no data-dependent shortcut: every linear-algebra step runs exactly once on every path."
-    ' (R07.10) the measurement a box / point contributes is the same vector of plain coordinates at initiate, update and distance (contradiction rule between the three sites), in the order in which the state -> box conversion reads the state back, with the optional angle defaulting to the constant 0 and all velocities starting at 0; R07.6 also requires that the reported box is the conversion of the updated state with only the confidence written afterwards.')
-NOT_DECIDED = ["equality with the textbook Kalman recurrence for all trajectories (f32 linear algebra)",
-               "symmetric positive-definiteness of the covariance", "stationary-object prediction",
-               "squared-Mahalanobis value of distance()"]
+    ' (R07.10) the measurement a box / point contributes is the same vector of plain coordinates at initiate, update and distance (contradiction rule between the three sites), in the order in which the state -> box conversion reads the state back, with the optional angle defaulting to the constant 0 and all velocities starting at 0; R07.6 also requires that the reported box is the conversion of the updated state with only the confidence written afterwards.'
+    " (R07.11) predict, project, update and distance of the box and the point filter, read as matrix expressions in a non-commutative normal form with transpose and inverse (P, S symmetric; solve_lower_triangular(S, B) = S^-1 B), equal the textbook recurrences m' = F m, P' = F P F^T + Q, (H m, H P H^T + R), m' = m + K (z - H m), P' = P - K S K^T with K = P H^T S^-1, d = (z - H m)^T S^-1 (z - H m).")
+NOT_DECIDED = ["f32 rounding of the recurrences (their real-valued matrix formulas ARE decided: R07.11)",
+               "symmetric positive-definiteness of the covariance as a numeric statement (R07.11 shows P' = P - K S K^T "
+               "and P' = F P F^T + Q, which preserve it in exact arithmetic)", "stationary-object prediction as a numeric statement",
+               "that solve_lower_triangular(S, .) equals S^-1 (true for the diagonal S this model produces from initiate)"]
 ASSUMPTIONS = ["nalgebra behaves as documented", "rustc nightly MIR construction"]
 
 BOX = 'utils::kalman::kalman_2d_box::Universal2DBoxKalmanFilter'
@@ -702,7 +704,147 @@ def measurement_rule(ctx, R):
     return n
 
 
+def recurrence_rule(ctx, R):
+    """R07.11 — the recurrences as matrix expressions (rules/matnf.py: non-commutative normal form with transpose and
+    inverse; static, no numbers):
+        predict   m' = F m            P' = F P F^T + Q          (Q: one diagonal noise term)
+        project   (H m,  H P H^T + R)                            (R: one diagonal noise term)
+        update    m' = m + K (z - H m),   P' = P - K S K^T      with K = P H^T S^-1, S = project(..).covariance
+        distance  d  = (z - H m)^T S^-1 (z - H m)
+    P and S are taken as symmetric (reachable states), solve_lower_triangular(S, B) as S^-1 B.  The comparison is an
+    identity in that algebra, so operand order, a dropped or misplaced transpose, `+` for `-`, P for S are all
+    reported even when the multiset of operations is unchanged (which R07.2's sibling comparison cannot see).
+    Evaluated only when the whole expression reduces; otherwise recorded as not evaluated."""
+    import matnf
+    from matnf import Mat, to_mat, NotLinear
+    SYM = frozenset(['P', 'S', 'Q', 'R', 'I'])
+    n = 0
+    for K in (BOX, PT):
+        short = K.rsplit('::', 1)[-1]
+        for m in ('predict', 'project', 'update', 'distance'):
+            bs = ctx.F.get(K + '::' + m)
+            if len(bs) != 1:
+                ctx.note(R, '%s::%s not found as one body: recurrence not evaluated' % (short, m))
+                continue
+            b = bs[0]
+            ctx.read(b)
+            eb = ExprBuilder(b)
+            # parameter roles by type
+            st = [k for k in range(1, b.nargs + 1) if 'KalmanState' in b.locals[k]]
+            # in-place updates of a vector: x.sub_assign(&y) / add_assign
+            mut = {}
+            for c in b.find_calls('sub_assign', 'add_assign'):
+                if len(c.args) == 2 and c.args[0].get('k') in ('copy', 'move'):
+                    r = c.args[0]['pl']['l']
+                    tgt = None
+                    for d in b.defs().get(r, []):
+                        if d[0] == 'assign' and d[3]['rv']['k'] == 'ref':
+                            tgt = d[3]['rv']['pl']['l']
+                    if tgt is not None:
+                        # the mutated vector and every local it was moved / copied from (a value built by a helper and
+                        # moved into the variable that is then updated in place)
+                        todo, seen_ = [tgt], set()
+                        while todo:
+                            x_ = todo.pop()
+                            if x_ in seen_:
+                                continue
+                            seen_.add(x_)
+                            mut.setdefault(x_, []).append((c.name, eb.arg(c, 1)))
+                            for d in b.defs().get(x_, []):
+                                if d[0] == 'assign' and d[3]['rv']['k'] == 'use' and d[3]['rv']['op'].get('k') in ('copy', 'move') \
+                                        and not d[3]['rv']['op']['pl']['p']:
+                                    todo.append(d[3]['rv']['op']['pl']['l'])
+
+            def atom_of(e, _m=m, _st=st, _b=b):
+                if e.kind == 'place' and e.root[0] == 'param':
+                    k, fl = e.root[1], tuple(f for f in e.fields if not f.startswith('as '))
+                    if k == 1 and fl[-1:] == ('motion_matrix',):
+                        return 'F'
+                    if k == 1 and fl[-1:] == ('update_matrix',):
+                        return 'H'
+                    if _m == 'project':
+                        if k == 2 and not fl:
+                            return 'm'
+                        if k == 3 and not fl:
+                            return 'P'
+                    if _st and k == _st[0]:
+                        if fl[-1:] == ('mean',):
+                            return 'm'
+                        if fl[-1:] == ('covariance',):
+                            return 'P'
+                    return None
+                if e.kind == 'call':
+                    leaf = e.name.rsplit('::', 1)[-1]
+                    if leaf == 'from_diagonal':
+                        return 'Q' if _m == 'predict' else 'R'
+                    if leaf == 'project' and e.name.startswith(K) and len(e.args) == 3:
+                        try:
+                            am = to_mat(e.args[1], atom_of, SYM)
+                            ap = to_mat(e.args[2], atom_of, SYM)
+                        except NotLinear:
+                            return None
+                        if not (am.same(Mat.atom('m', SYM)) and ap.same(Mat.atom('P', SYM))):
+                            return None
+                        if e.proj == ('mean',):
+                            return Mat.atom('H', SYM) * Mat.atom('m', SYM)
+                        if e.proj == ('covariance',):
+                            return Mat.atom('S', SYM)
+                        return None
+                    if leaf in ('from_iterator', 'from_vec', 'from_column_slice', 'from_row_slice', 'new') and not e.proj \
+                            and _m in ('update', 'distance') and 'Matrix' in (_b.locals[e.extra.dest['l']] if hasattr(e.extra, 'dest') else 'Matrix'):
+                        z = Mat.atom('z', SYM)
+                        dl = e.extra.dest['l'] if hasattr(e.extra, 'dest') else None
+                        for nm, other in mut.get(dl, []):
+                            try:
+                                o = to_mat(other, atom_of, SYM)
+                            except NotLinear:
+                                return None
+                            z = z - o if nm == 'sub_assign' else z + o
+                        return z
+                return None
+
+            F_, H, mm, P, S, z = (Mat.atom(x, SYM) for x in ('F', 'H', 'm', 'P', 'S', 'z'))
+            Q, Rn = Mat.atom('Q', SYM), Mat.atom('R', SYM)
+            Kg = P * H.T() * S.inv()
+            y = z - H * mm
+            want = {
+                'predict': {'mean': F_ * mm, 'covariance': F_ * P * F_.T() + Q},
+                'project': {'mean': H * mm, 'covariance': H * P * H.T() + Rn},
+                'update': {'mean': mm + Kg * y, 'covariance': P - Kg * S * Kg.T()},
+                'distance': {None: y.T() * S.inv() * y},
+            }[m]
+            res = eb.place(0, ())
+            parts = {}
+            if m == 'distance':
+                parts[None] = res
+            else:
+                aggs = [x for x in res.walk() if x.kind == 'agg' and x.name.endswith('KalmanState') and x.extra and
+                        x.extra.get('fields')]
+                if len(aggs) != 1:
+                    ctx.note(R, '%s::%s does not return one KalmanState literal: recurrence not evaluated' % (short, m))
+                    continue
+                parts = dict(zip(aggs[0].extra['fields'], aggs[0].args))
+            for f, ref in want.items():
+                if f not in parts:
+                    ctx.note(R, '%s::%s: component %s not found: not evaluated' % (short, m, f))
+                    continue
+                try:
+                    got = to_mat(parts[f], atom_of, SYM)
+                except NotLinear as x:
+                    ctx.note(R, '%s::%s.%s is not a reducible matrix expression (%s): not evaluated' % (short, m, f or 'value', x))
+                    continue
+                n += 1
+                ctx.check(got.same(ref), R, b, '%s:%s%s=textbook' % (short, m, ('.' + f) if f else ''), repr(got),
+                          '%s::%s computes %s = %r; the Kalman recurrence is %r (F motion, H measurement matrix, P state '
+                          'covariance, S projected covariance, Q / R noise, z measurement, m mean)' % (
+                              short, m, f or 'the distance', got, ref))
+    return n
+
+
 def run(ctx):
+    ctx.rule('R07.11', 'recurrences as matrix expressions equal the textbook ones (predict, project, update, distance; '
+                       'normal form with transpose / inverse)')
+    ctx.evaluated('R07.11', recurrence_rule(ctx, 'R07.11'), 14)
     ctx.rule('R07.10', 'measurement vector: same plain coordinates at initiate / update / distance, in the order the '
                        'state -> box conversion reads them back; velocities start at 0')
     ctx.evaluated('R07.10', measurement_rule(ctx, 'R07.10'), 42)
